@@ -17,7 +17,7 @@ MANIFEST = {
             "produce byte for byte the specified image for all four flag combinations; the first relocation of any built "
             "program (directly or after flatten, any base) never increases code_size(); the copy loop of JitRuntime::_add "
             "(sections in id order) installs exactly the copy_flattened_data image of the relocated state and never leaves "
-            "the span. The model is tied to the real code by running harness and Lean driver on the same operation lines; "
+            "the span; a reused holder (reinit, reset+init) carries exactly the table of a fresh one. The model is tied to the real code by running harness and Lean driver on the same operation lines; "
             "the Lean monitors (the predicates of the theorems) judge every answer of the real code.",
     "note": "Trusted: Lean kernel; Spec/Sections.lean as the meaning of layout/image; harness/driver/diff. The model follows the "
             "repaired code (fixes/C10-1..4.patch). Modelled: new_section, ensure/add address table, x86 call/jmp-abs emission, "
@@ -28,7 +28,7 @@ MANIFEST = {
 MODS = ["AsmjitVerif.Props.C10"]
 M64 = (1 << 64) - 1
 INT_MIN, INT_MAX = -(1 << 31), (1 << 31) - 1
-MUTATING = {"sec", "data", "vsize", "addr", "call", "jmp", "flatten", "reloc", "jitadd"}
+MUTATING = {"sec", "data", "vsize", "addr", "call", "jmp", "flatten", "reloc", "jitadd", "reinit", "reset"}
 MAXDST = 1 << 22
 
 
@@ -223,6 +223,44 @@ def small_exhaustive(limit=None):
             ops += ["flatten", "@copies", "flatten", "@copies"]
             out.append(ops)
     return out[:limit] if limit else out
+
+
+REUSE_OPS = ("reinit", "reset soft", "reset hard")
+
+
+def reuse_family():
+    """Deterministic family: a first use that pads `.text` (a following aligned section -> virtual size > buffer size), has an
+    address table and a relocation, then reinit / reset soft / reset hard + init, then a smaller second use that is flattened and
+    copied at exact sizes: the second use must be what a fresh holder gives (the monitor demands the fresh table right after the
+    reuse op, the model continues from `init`)."""
+    out = []
+    for reuse in REUSE_OPS:
+        for t in (1, 7):
+            for withat in (False, True):
+                ops = ["init", "data 0 %s" % ("90" * t), "sec a 16 0", "data 1 cc", "sec v 64 1", "vsize 2 21"]
+                if withat:
+                    ops += ["call 0 7fff123456789abc"]
+                ops += ["flatten", "@copies"]
+                if withat:
+                    ops += ["reloc 10000"]
+                ops += [reuse, "names", "data 0 9090", "copysec 0 2 1", "sec b 4 0", "data 1 c3", "flatten", "@copies", "names", "find b", "find a",
+                        "flatten", "@copies", reuse, "flatten", "@copies", "data 0 c3", "jitadd"]
+                out.append(ops)
+    return out
+
+
+def gen_reuse_config(rng):
+    """use1 ; reinit | reset soft | reset hard ; use2 (both random configurations)"""
+    ops = gen_config(rng)
+    for _ in range(rng.choice((1, 1, 2))):
+        nxt = gen_config(rng)[1:]
+        # relocate_to_base (also inside JitRuntime::add) stores its base in the holder and reinit() keeps it ("same base address
+        # as it had"): with a known base x86 call/jmp abs takes the direct rel32 path, which this model does not carry. After a
+        # relocation a second use that emits call/jmp abs is therefore started with reset + init (which forgets the base).
+        relocated = any(o.split()[0] in ("reloc", "jitadd") for o in ops)
+        emits = any(o.split()[0] in ("call", "jmp") for o in nxt)
+        ops = ops + [rng.choice(REUSE_OPS[1:] if relocated and emits else REUSE_OPS)] + nxt
+    return ops
 
 
 def pad_family():
@@ -425,7 +463,7 @@ def run(res):
     h = vlib.build_harness("c10")
 
     ncfg = 1500 if res.tier == "quick" else 25000
-    cfgs = [WITNESS_17, WITNESS_CS, WITNESS_NAME, WITNESS_JIT0] + pad_family() + small_exhaustive(None if res.tier == "thorough" else 120) + [gen_config(rng) for _ in range(ncfg)]
+    cfgs = [WITNESS_17, WITNESS_CS, WITNESS_NAME, WITNESS_JIT0] + pad_family() + reuse_family() + small_exhaustive(None if res.tier == "thorough" else 120) + [(gen_reuse_config(rng) if rng.random() < 0.2 else gen_config(rng)) for _ in range(ncfg)]
     with ThreadPoolExecutor(4) as ex:
         cfgs = [c for part in ex.map(lambda p: expand_all(p, h), chunks(cfgs, 4)) for c in part]
 
@@ -471,7 +509,8 @@ def run(res):
                             "{INT_MIN,-1,0,1,INT_MAX, equal runs, random}, empty/code/virtual-only/both, virtual sizes near 2^62..2^64, with/without "
                             ".addrtab via call/jmp abs), flatten (also twice, also after growth), copies at code_size+{-9..9}, at every section boundary "
                             "+-1, at 0 and small sizes with all four flag combinations, copy_section_data, one relocation, JitRuntime::add; plus an "
-                            "exhaustive menu of 3-section tables and the deterministic padding family (36 tables x every destination size from "
+                            "REUSED holders (use1; reinit | reset soft | reset hard + init; use2 - 20 % of the random configurations and a deterministic "
+                            "family of 12) whose table must be the fresh one; an exhaustive menu of 3-section tables and the deterministic padding family (36 tables x every destination size from "
                             "offset+buffer-1 to offset+virtual+1 x 4 flag sets, for copy_flattened_data and copy_section_data); non-trivial = distinct (op, accepted answer, state before) of flatten/copy/copysec/reloc/jitadd")
     res.coverage["exhaustive"] = False
     res.coverage["input_distribution"] = dict(sorted(kinds.items()))
